@@ -628,6 +628,9 @@ func (p *Parser) resourceHeader(sec section) (ResourceHeader, error) {
 	if err != nil {
 		return ResourceHeader{}, err
 	}
+	if off+int(hdr.Length) > len(p.msg) {
+		return ResourceHeader{}, errResourceLen
+	}
 	p.resHeaderValid = true
 	p.resHeaderOffset = p.off
 	p.resHeaderType = hdr.Type
